@@ -1,5 +1,5 @@
 """Texts of the claims made in MANIFEST.json, per property."""
-HOOK_COMMITS = ['78ce041', '65be38d', '036e882', '4be9113', '00cc1df']
+HOOK_COMMITS = ['78ce041', '65be38d', '036e882', '4be9113', '00cc1df', '2389819']
 
 NOT_APPLICABLE = {}
 
@@ -152,5 +152,22 @@ CLAIMS = {
         'note': TB + 'SHA-256 collision resistance is not assumed (binding form); keccak/RLP of the header is outside the model (it sees number and hash); '
                 'byte-level slicing of the proof containers is executable model code covered by correspondence only; the oracle is a fixed answer per table set-up.',
         'technique': 'Lean 4 proof (induction over Merkle branches and trees, decision logic of the dispatcher) + differential correspondence with spec-side verdicts',
+    },
+    'C02': {
+        'text': 'Lean 4 theorems about a model of HistoryValidator.ValidateContent behind ValidationOracle.GetBlockHeaderByHash, for EVERY '
+                'decoding environment (rlp, keccak, trie roots, SSZ containers and the header-proof check are parameters), every key, every '
+                'content and every header source however it lies: accepted => the header has the key\'s hash/number and a verifying proof, '
+                'resp. the body\'s tx/uncle/withdrawal roots and the receipt root are those of a decodable header with the key\'s hash (or two '
+                'headers with one hash are exhibited); anything else is rejected with an error, never a panic; the oracle returns only a '
+                'header with the requested hash; validateContents and the three getters store and return bound content only, over every '
+                'history. The real validator, oracle, gate and getters (the latter over a real two-node discv5/uTP link) agree with the '
+                'model on ~35k generated cases per quick run (~525k thorough); five deviations of today\'s code are modelled as switches with decided witnesses and '
+                'are reported by the monitors on the real code.',
+        'note': TB + 'go-ethereum (rlp, Header.Hash, DeriveSha, CalcUncleHash), fastssz decoding and the C03 proof check are parameters of '
+                'the model and are evaluated by the harness, not re-implemented in Lean; collision resistance is not assumed (explicit '
+                'alternative in the theorem). The getters\' local path returns stored content unvalidated: covered by the store invariant '
+                '(everything stored went through the gate), not by a re-check.',
+        'technique': 'Lean 4 decision-logic proof (case analysis; induction over item lists and histories) + quirk-switch model + '
+                     'differential correspondence incl. a two-node end-to-end run',
     },
 }
